@@ -22,7 +22,9 @@ ASSUMPTIONS = [
     "observation is 'transmitted' (all ciphertext handed to the TCP transport is decrypted by the harness peer), not merely 'read'",
 ]
 
-STATES = ["unpinned", "pinned-same", "pinned-different", "unparsable", "unparsable-pinned", "changed-after-success"]
+STATES = ["unpinned", "pinned-same", "pinned-different", "unparsable", "unparsable-pinned", "changed-after-success",
+          "pinned-twin"]
+HOSTS = ["target", "target", "0:0:0:0:0:0:0:1", "target."]
 OPS = ["get", "get-query", "upload", "delete"]
 
 
@@ -35,6 +37,7 @@ def case_st():
         "redirect": st.booleans(),
         "tls": st.sampled_from(["1.3", "1.2"]),
         "dbfault": st.sampled_from([None, None, None, 1, 2, 3, 4, 5, 6]),
+        "host": st.sampled_from(HOSTS),
     })
 
 
@@ -48,6 +51,10 @@ def enum_all(tier):
                     for tls in ("1.3", "1.2"):
                         for size in ([100] if op != "upload" else [1, 100, 65536]):
                             yield {"state": s, "op": op, "size": size, "peer": peer, "redirect": redirect, "tls": tls, "dbfault": None}
+                            if peer == "eager" and tls == "1.3" and size == 100:
+                                for h in HOSTS[2:]:
+                                    yield {"state": s, "op": op, "size": size, "peer": peer, "redirect": redirect, "tls": tls,
+                                           "dbfault": None, "host": h}
     # trust-store lookups failing (sqlite OperationalError at the n-th statement) while the certificate does not match
     for s in ("pinned-different", "changed-after-success", "unparsable-pinned", "pinned-same"):
         for op in OPS:
@@ -70,8 +77,10 @@ def run_case(case: dict):
     if case["op"] != "get":
         case["redirect"] = False  # only plain fetches follow redirects
     state = case["state"]
-    presented = {"unpinned": "ec-a", "pinned-same": "ec-a", "pinned-different": "ec-b",
+    presented = {"unpinned": "ec-a", "pinned-same": "ec-a", "pinned-different": "ec-b", "pinned-twin": "twin-b",
                  "unparsable": "hostile-bool", "unparsable-pinned": "hostile-v4", "changed-after-success": "ec-b"}[state]
+    T = case.get("host") or "target"  # the spelling of the target host in URLs, pins and redirects
+    TA = f"[{T}]" if ":" in T else T
     v = ssl.TLSVersion.TLSv1_2 if case["tls"] == "1.2" else ssl.TLSVersion.TLSv1_3
 
     async def scenario(loop):
@@ -84,18 +93,22 @@ def run_case(case: dict):
         else:
             script = [("stall",)]
         target = memnet.ScriptedPeer(certs.get(presented), script, minv=v, maxv=v)
-        net.add("target", 1965, target)
-        good = memnet.ScriptedPeer(certs.get("rsa-a"), [("wait_request", 1.0), ("send", b"30 gemini://target/landing?from=good\r\n"), ("close",)])
+        net.add(T, 1965, target)
+        good = memnet.ScriptedPeer(certs.get("rsa-a"), [("wait_request", 1.0), ("send", f"30 gemini://{TA}/landing?from=good\r\n".encode()), ("close",)])
         net.add("good", 1965, good)
         db = TOFUDatabase(dbpath)
         if state in ("pinned-same", "pinned-different", "unparsable-pinned"):
-            db.trust("target", 1965, x509.load_der_x509_certificate(certs.get("ec-a").der))
+            db.trust(T, 1965, x509.load_der_x509_certificate(certs.get("ec-a").der))
+        if state == "pinned-twin":
+            # the pinned certificate and the presented one share issuer name and serial number (both are chosen by
+            # whoever makes a self-signed certificate) but not the key
+            db.trust(T, 1965, x509.load_der_x509_certificate(certs.get("twin-a").der))
         client = GeminiClient(timeout=20, tofu_db_path=dbpath)
         if state == "changed-after-success":
             # the same long-lived client first completes a verified fetch; then the peer starts presenting another certificate
             target.cert_sequence = [certs.get("ec-a"), certs.get("ec-b")]
             target.script = [("wait_request", 1.0), ("send", b"20 text/gemini\r\nOK"), ("close",)]
-            r0 = await client.get("gemini://target/first")
+            r0 = await client.get(f"gemini://{TA}/first")
             assert r0.status == 20
             target.script = script
             target.conns.clear()
@@ -106,7 +119,7 @@ def run_case(case: dict):
         def wrapped(self, hostname, port, cert):
             for c in target.conns:
                 c.process()
-            if hostname == "target":
+            if hostname == T:
                 snaps.append(sum(len(c.tls.plain) for c in target.conns))
             return orig_verify(self, hostname, port, cert)
 
@@ -118,7 +131,7 @@ def run_case(case: dict):
             c12._State.n, c12._State.kind, c12._State.count, c12._State.active = case["dbfault"], "error", 0, True
         try:
             content = bytes(i & 0xFF for i in range(case["size"]))
-            host = "good" if case["redirect"] else "target"
+            host = "good" if case["redirect"] else TA
             try:
                 if case["op"] == "get":
                     r = await client.get(f"gemini://{host}/page")
@@ -148,7 +161,7 @@ def run_case(case: dict):
         import shutil
 
         shutil.rmtree(d, ignore_errors=True)
-    should_fail = state in ("pinned-different", "unparsable", "unparsable-pinned", "changed-after-success")
+    should_fail = state in ("pinned-different", "unparsable", "unparsable-pinned", "changed-after-success", "pinned-twin")
     if case.get("dbfault") and not should_fail:
         # the matching pin could not be (fully) consulted/updated: the call may fail or succeed; nothing to require here
         # beyond 'nothing before verification started', which was checked above
@@ -171,12 +184,12 @@ def run_case(case: dict):
             return viol("valid-peer-failed", f"{res}", **info)
     line = got.split(b"\r\n", 1)[0]
     if case["op"].startswith("get"):
-        exp = b"gemini://target/landing?from=good" if case["redirect"] else (b"gemini://target/page" if case["op"] == "get" else b"gemini://target/search?secret-query")
+        exp = (f"gemini://{TA}/landing?from=good" if case["redirect"] else (f"gemini://{TA}/page" if case["op"] == "get" else f"gemini://{TA}/search?secret-query")).encode()
         if got != exp + b"\r\n":
             return viol("wrong-request-sent", f"{got[:100]!r}", **info)
     else:
         content = bytes(i & 0xFF for i in range(case["size"] if case["op"] == "upload" else 0))
-        if not line.startswith(b"titan://target/up.txt;size=%d;" % len(content)) or got.split(b"\r\n", 1)[1] != content:
+        if not line.startswith(f"titan://{TA}/up.txt;size={len(content)};".encode()) or got.split(b"\r\n", 1)[1] != content:
             return viol("wrong-request-sent", f"{got[:100]!r}", **info)
     return ok(**info)
 
